@@ -117,7 +117,7 @@ def check_fifo(prop, tier, seed, replay):
         if not replay:
             import check_life
             for name in (["q-two-two-crash", "q-sw-nsw-b1"] if tier == "quick" else
-                         ["two-two-b0", "two-two-b1", "sw-nsw-b1", "three-b0", "stream-two-b0"]):
+                         ["t-two-two-b0", "t-two-two-b1", "sw-nsw-b1", "t-three-b0", "t-stream-two"]):
                 out, gen, dist, rc = tlc("ChannelMC", check_life.channel_cfg(name, []), work, workers=16, timeout=3000)
                 if not tlc_ok(out):
                     raise Infra("design-level check of Channel.tla (%s) failed:\n%s" % (name, out[-3000:]))
@@ -268,7 +268,7 @@ def m3_replay(prop, rp, work, default_params):
 ROUTING_TIERS = {
     # (3-call programs, shards, m3 (runs, goroutines, calls), design configs)
     "quick": (False, 4, (8, 6, 40), ["q-two-two-crash", "three-two-nocrash"]),
-    "thorough": (True, 16, (60, 8, 80), ["two-two-b0", "stream-two-b0", "stream-stream-b1", "three-b0", "three-two-nocrash"]),
+    "thorough": (True, 16, (60, 8, 80), ["t-two-two-b0", "t-stream-two", "t-stream-stream-b1", "t-three-b0", "three-two-nocrash"]),
 }
 ROUTING_M3F = {"quick": (6, 6, 40), "thorough": (60, 8, 60)}
 ROUTING_OWN = {"C05": "AtMostOneResponse ConfirmOnlyOneWay (Channel.tla); Deliver/Recv/Drop preconditions, QF stamps (Routing.tla)",
